@@ -62,42 +62,57 @@ def min_resn(residuals):
     return k
 
 
-def encode(plan):
-    """plan: {version, ftype, nchan, maxnlpc, nmean, blocksize0, nskip_bytes, rounds:[{B?, shift?, blocks:[{cmd,...,
-    samples:[...]} per channel]}], tail_cmd?}. Samples are output-domain values (16-bit PCM values, or G.711 codes
-    for ftype 8). Returns the stream bytes (magic, version byte, padded bit stream)."""
-    v = plan["version"]
-    ftype = plan["ftype"]
-    nchan = plan["nchan"]
-    P = plan["maxnlpc"]
-    M = plan["nmean"]
-    B = plan["blocksize0"]
-    bw = BitWriter()
-    sl = plan.get("ulong_slack", 0)
-    bw.ulong(int(plan.get("ftype_field", ftype)), sl)  # ftype_field: the bad-file-type fault
-    bw.ulong(nchan, sl)
-    bw.ulong(B, sl)
-    bw.ulong(P, sl)
-    bw.ulong(M, sl)
-    skip = plan.get("nskip_bytes", [])
-    bw.ulong(len(skip), sl)
-    for b in skip:
-        bw.uvar(b, 7)
-    nwrap = max(3, P)
-    hist = [[0] * nwrap for _ in range(nchan)]
-    offs = [[0] * max(1, M) for _ in range(nchan)]
-    shift = 0
-    for rnd in plan["rounds"]:
+class Encoder(object):
+    """Stateful encoder: header at construction, then add_round() per round, then finish()."""
+
+    def __init__(self, plan, bw=None):
+        self.plan = plan
+        self.v = plan["version"]
+        self.ftype = plan["ftype"]
+        self.nchan = plan["nchan"]
+        self.P = plan["maxnlpc"]
+        self.M = plan["nmean"]
+        self.B = plan["blocksize0"]
+        self.sl = plan.get("ulong_slack", 0)
+        self.nwrap = max(3, self.P)
+        self.hist = [[0] * self.nwrap for _ in range(self.nchan)]
+        self.offs = [[0] * max(1, self.M) for _ in range(self.nchan)]
+        self.shift = 0
+        self.bw = bw if bw is not None else BitWriter()
+        if bw is None:
+            w, sl = self.bw, self.sl
+            w.ulong(int(plan.get("ftype_field", self.ftype)), sl)  # ftype_field: the bad-file-type fault
+            w.ulong(self.nchan, sl)
+            w.ulong(self.B, sl)
+            w.ulong(self.P, sl)
+            w.ulong(self.M, sl)
+            skip = plan.get("nskip_bytes", [])
+            w.ulong(len(skip), sl)
+            for b in skip:
+                w.uvar(b, 7)
+
+    def clone_state(self):
+        """A copy that shares nothing mutable and writes into a fresh bit buffer (used to measure a candidate round)."""
+        c = Encoder.__new__(Encoder)
+        c.__dict__.update(self.__dict__)
+        c.hist = [list(h) for h in self.hist]
+        c.offs = [list(o) for o in self.offs]
+        c.bw = BitWriter()
+        return c
+
+    def add_round(self, rnd):
+        bw, v, ftype, nchan, P, M, sl, nwrap = self.bw, self.v, self.ftype, self.nchan, self.P, self.M, self.sl, self.nwrap
         if rnd.get("inject_cmd") is not None:
             bw.uvar(int(rnd["inject_cmd"]), 2)  # the unknown-command fault
-        if rnd.get("B") is not None and rnd["B"] != B:
-            B = rnd["B"]
+        if rnd.get("B") is not None and rnd["B"] != self.B:
+            self.B = rnd["B"]
             bw.uvar(5, 2)
-            bw.ulong(B, sl)
-        if rnd.get("shift") is not None and rnd["shift"] != shift:
-            shift = rnd["shift"]
+            bw.ulong(self.B, sl)
+        if rnd.get("shift") is not None and rnd["shift"] != self.shift:
+            self.shift = rnd["shift"]
             bw.uvar(6, 2)
-            bw.uvar(shift, 2)
+            bw.uvar(self.shift, 2)
+        B, shift = self.B, self.shift
         assert len(rnd["blocks"]) == nchan
         for chan, blk in enumerate(rnd["blocks"]):
             s = list(blk["samples"])
@@ -110,14 +125,14 @@ def encode(plan):
                     assert (q >> shift) << shift == q, "sample has low bits below the bit shift"
                 x = [q >> shift for q in s]
             if M > 0:
-                t = (M // 2 if v >= 2 else 0) + sum(offs[chan][:M])
+                t = (M // 2 if v >= 2 else 0) + sum(self.offs[chan][:M])
                 coff = tdiv(t, M)
                 if v >= 2:
                     coff >>= shift
             else:
-                coff = offs[chan][0]
+                coff = self.offs[chan][0]
             cmd = blk["cmd"]
-            h = hist[chan]
+            h = self.hist[chan]
             if cmd == "ZERO":
                 assert all(q == 0 for q in x)
                 bw.uvar(8, 2)
@@ -172,10 +187,36 @@ def encode(plan):
                 m = tdiv(t, B)
                 if v >= 2:
                     m <<= shift
-                offs[chan] = offs[chan][1:M] + [m]
-            hist[chan] = (h + x)[-nwrap:]
-    if plan.get("tail_cmd") is not None:
-        bw.uvar(int(plan["tail_cmd"]), 2)
-    bw.uvar(4, 2)  # QUIT
-    vb = plan.get("version_byte", v)
-    return b"ajkg" + bytes([vb & 0xFF]) + bw.tobytes()
+                self.offs[chan] = self.offs[chan][1:M] + [m]
+            self.hist[chan] = (h + x)[-nwrap:]
+
+    def tail_bits(self):
+        """Bits the stream still needs after the rounds: optional tail command and QUIT."""
+        return (BitWriter_len_uvar(int(self.plan["tail_cmd"]), 2) if self.plan.get("tail_cmd") is not None else 0) \
+            + BitWriter_len_uvar(4, 2)
+
+    def finish(self):
+        if self.plan.get("tail_cmd") is not None:
+            self.bw.uvar(int(self.plan["tail_cmd"]), 2)
+        self.bw.uvar(4, 2)  # QUIT
+        vb = self.plan.get("version_byte", self.v)
+        return b"ajkg" + bytes([vb & 0xFF]) + self.bw.tobytes()
+
+
+def BitWriter_len_uvar(val, n):
+    return (val >> n) + 1 + n
+
+
+def stream_len(bits):
+    """Length in bytes of a stream holding `bits` bits (magic, version byte, padding to 32-bit words)."""
+    return 5 + 4 * ((bits + 31) // 32)
+
+
+def encode(plan):
+    """plan: {version, ftype, nchan, maxnlpc, nmean, blocksize0, nskip_bytes, rounds:[{B?, shift?, blocks:[{cmd,...,
+    samples:[...]} per channel]}], tail_cmd?}. Samples are output-domain values (16-bit PCM values, or G.711 codes
+    for ftype 8). Returns the stream bytes (magic, version byte, padded bit stream)."""
+    enc = Encoder(plan)
+    for rnd in plan["rounds"]:
+        enc.add_round(rnd)
+    return enc.finish()
